@@ -141,10 +141,87 @@ class Body:
         self._succ[b] = out
         return out
 
+    # ---- path sensitivity for inlined helper results (see lib/inline.py): the variant an inlined call returned on this path is
+    # remembered and the caller's test of that result is followed only along the matching edge
+    def _ps(self):
+        if getattr(self, "_ps_cache", None) is None:
+            metas = self.fn.get("inlined") or []
+            tests = {}
+            self._ps_building = True
+            for i, m in enumerate(metas):
+                if m.get("dest_local") is None:
+                    continue
+                for sb in self.switch_blocks():
+                    e = self.cond(sb)
+                    if e[0] == "discr" and e[1]["l"] == m["dest_local"] and not e[1]["p"]:
+                        tests[sb] = i
+            self._ps_building = False
+            self._ps_cache = (metas, tests)
+        return self._ps_cache
+
+    def _ps_step(self, b, tg, lab, tags):
+        """new tag tuple after moving b -> tg, or None if the edge contradicts what is known"""
+        metas, tests = self._ps()
+        if b in tests:
+            i = tests[b]
+            known = tags[i]
+            if known is not None:
+                term = self.blocks[b]["term"]
+                listed = {v for v, _ in term["targets"]}
+                if lab == "otherwise":
+                    if known in listed:
+                        return None
+                elif lab != known:
+                    return None
+        new = list(tags)
+        for i, m in enumerate(metas):
+            if tg == m["entry"]:
+                new[i] = None
+            v = m["sites"].get(tg)
+            if v is not None:
+                new[i] = v
+        return tuple(new)
+
+    def _ps_search(self, starts, goal, cut_edges, cut_blocks):
+        metas, _ = self._ps()
+        init = tuple(None for _ in metas)
+        prev = {}
+        dq = deque()
+        for s in starts:
+            if s not in cut_blocks:
+                st = (s, self._ps_step(None, s, None, init) or init)
+                prev[st] = None
+                dq.append(st)
+        seen_blocks = set(s for s, _ in prev)
+        while dq:
+            st = dq.popleft()
+            b, tags = st
+            if goal is not None and b in goal:
+                out = []
+                while st is not None:
+                    out.append(st[0])
+                    st = prev[st]
+                return out[::-1], seen_blocks
+            for tg, lab in self.succ(b):
+                if (b, tg) in cut_edges or tg in cut_blocks:
+                    continue
+                nt = self._ps_step(b, tg, lab, tags)
+                if nt is None:
+                    continue
+                ns = (tg, nt)
+                if ns in prev:
+                    continue
+                prev[ns] = st
+                seen_blocks.add(tg)
+                dq.append(ns)
+        return None, seen_blocks
+
     def reach(self, starts, cut_edges=(), cut_blocks=()):
         """blocks reachable from `starts` (inclusive) without crossing cut edges / entering cut blocks"""
         cut_edges = set(cut_edges)
         cut_blocks = set(cut_blocks)
+        if self.fn.get("inlined") and not getattr(self, "_ps_building", False):
+            return self._ps_search(list(starts), None, cut_edges, cut_blocks)[1]
         seen = set()
         dq = deque(s for s in starts if s not in cut_blocks)
         seen.update(dq)
@@ -162,6 +239,8 @@ class Body:
         cut_edges = set(cut_edges)
         cut_blocks = set(cut_blocks)
         goal = set(goal)
+        if self.fn.get("inlined") and not getattr(self, "_ps_building", False):
+            return self._ps_search(list(starts), goal, cut_edges, cut_blocks)[0]
         prev = {}
         dq = deque()
         for s in starts:
